@@ -43,6 +43,12 @@ CONSTANTS
   EdgeClearedOnReply,  \* BOOLEAN: wait-for edge removed when the reply is sent (F1 fixed)
   AskerGuard,          \* BOOLEAN: the asking future removes its own wait-for edge when it completes or is dropped
                        \* (FALSE = a deviation used to let TLC find distinguishing schedules: only the callee side clears)
+  KilledFromSignal,    \* BOOLEAN: killed is set because a Terminate signal was received (FALSE = deviation: derived
+                       \* from whether strong references still exist at that moment)
+  StopWaits,           \* BOOLEAN: stop() waits for a mailbox slot (FALSE = deviation: returns at once, marker sent in the background)
+  TimeoutWithdraws,    \* BOOLEAN: a timed-out send is withdrawn (FALSE = deviation: it stays queued for a slot and is delivered later)
+  TermFirst,           \* BOOLEAN: the biased select polls the terminate channel before the mailbox (FALSE = deviation)
+  EnvelopeHoldsRef,    \* BOOLEAN: queued envelopes keep the actor referenced (FALSE = deviation)
   MetricsOn,           \* BOOLEAN: feature metrics (extra ActorRef clone during a handler)
   MaxRun,              \* bound on on_run invocations per actor (keeps the model finite)
   AvoidCycles,         \* BOOLEAN: hooks never issue an ask that would close a cycle (cycle-free programs)
@@ -70,7 +76,7 @@ NoActor == [sp |-> FALSE, pc |-> "None", cap |-> 0, permits |-> 0, mbox |-> <<>>
             res |-> NoRes, id |-> 0]
 
 NoOpRec == [own |-> "", kind |-> "", h |-> 0, a |-> "", m |-> 0, dl |-> -1, ph |-> "none",
-            res |-> "", val |-> 0, rep |-> "none", rv |-> 0]
+            res |-> "", val |-> 0, rep |-> "none", rv |-> 0, det |-> FALSE]
 
 NoHandle == [a |-> "", k |-> "none", vk |-> "ref"]
 
@@ -115,11 +121,11 @@ OpName(k) == IF k \in {"tell","tellT"} THEN "tell" ELSE IF k \in AskKinds THEN "
 Strong(s, a) ==
   LET A == s.A[a] IN
     Cardinality({h \in HIds : s.H[h].a = a /\ s.H[h].k = "s"})
-  + Len(A.mbox)
+  + (IF EnvelopeHoldsRef THEN Len(A.mbox) ELSE 0)
   + (IF A.cur # 0 THEN (IF MetricsOn THEN 2 ELSE 1) ELSE 0)
   + (IF A.own THEN 1 ELSE 0)
   + (IF A.marker THEN 1 ELSE 0)
-  + Cardinality({o \in OpIds : s.O[o].a = a /\ s.O[o].ph \in {"wait","granted"}})
+  + Cardinality({o \in OpIds : s.O[o].a = a /\ (s.O[o].ph \in {"wait","granted"} \/ (s.O[o].det /\ s.O[o].ph = "new"))})
 
 Alive(s, a) == ~s.A[a].closed
 
@@ -163,8 +169,11 @@ RelPermit(s, a) ==
   IF A.closed THEN s
   ELSE IF A.waiters # <<>>
     THEN LET o == Head(A.waiters) IN
-         SetO(SetA(s, a, [waiters |-> Tail(A.waiters), granted |-> A.granted \cup {o}]),
-              o, [ph |-> "granted"])
+         IF s.O[o].det
+           \* (deviations only) a send detached from its caller runs in the background: it pushes as soon as it gets the permit
+           THEN SetO(SetA(s, a, [waiters |-> Tail(A.waiters), mbox |-> Append(A.mbox, o)]), o, [ph |-> "bg"])
+           ELSE SetO(SetA(s, a, [waiters |-> Tail(A.waiters), granted |-> A.granted \cup {o}]),
+                     o, [ph |-> "granted"])
     ELSE SetA(s, a, [permits |-> A.permits + 1])
 
 -----------------------------------------------------------------------------
@@ -208,6 +217,11 @@ SendPoll(s, o) ==
   IF op.ph = "new" THEN
        IF A.closed THEN FailSend(s, o)
        ELSE IF A.permits > 0 THEN Push(SetA(s, a, [permits |-> A.permits - 1]), o, TRUE)
+       ELSE IF op.kind = "stop" /\ ~StopWaits
+              THEN \* deviation: report success at once, keep sending in the background
+                   \* (the background task has not run yet: it joins the wait queue in a later `bg` step)
+                   LET r == Done(s, o, "ok", 0) IN
+                   R(SetO(r.s, o, [ph |-> "new", det |-> TRUE]), r.evs)
        ELSE R(SetO(SetA(s, a, [waiters |-> Append(A.waiters, o)]), o, [ph |-> "wait"]),
               << [e |-> "OpPending", op |-> o, tk |-> FALSE] >>)
   ELSE IF op.ph = "wait" THEN
@@ -252,8 +266,10 @@ PollOp(s, o) ==
             ELSE IF op.ph = "reply" /\ InnerReady(s, o) THEN ReplyPoll(s, o)
             ELSE R(s, <<>>)
   IN  IF r1.s.O[o].ph # "done" /\ Expired(r1.s, o)
-        THEN LET s2 == Withdraw(r1.s, o)
-                 r3 == Done([s2 EXCEPT !.dlc = @ + 1], o, "timeout", 0)
+        THEN LET detach == ~TimeoutWithdraws /\ r1.s.O[o].ph = "wait"
+                 s2 == IF detach THEN r1.s ELSE Withdraw(r1.s, o)
+                 r3a == Done([s2 EXCEPT !.dlc = @ + 1], o, "timeout", 0)
+                 r3 == IF detach THEN R(SetO(r3a.s, o, [ph |-> "wait", det |-> TRUE]), r3a.evs) ELSE r3a
              IN  R(r3.s, \* a pending-notification of the same poll is superseded by the result
                    SelectSeq(r1.evs, LAMBDA ev : ev.e # "OpPending")
                    \o << DeadLetterEv(s, o, "timeout") >> \o r3.evs)
@@ -271,7 +287,7 @@ NewOp(s, own, kind, h, d) ==
       rec == [own |-> own, kind |-> kind, h |-> h, a |-> s.H[h].a,
               m |-> IF needM THEN s.nextM ELSE 0,
               dl |-> IF kind \in TimedKinds THEN s.now + d ELSE -1,
-              ph |-> "new", res |-> "", val |-> 0, rep |-> "none", rv |-> 0]
+              ph |-> "new", res |-> "", val |-> 0, rep |-> "none", rv |-> 0, det |-> FALSE]
   IN  [s EXCEPT !.O[o] = rec, !.nextOp = @ + 1, !.nextM = IF needM THEN @ + 1 ELSE @]
 
 OpStartEv(s, o) ==
@@ -325,8 +341,10 @@ EnterStop(s, a, k, viaMarker) ==
 \* one pass of  tokio::select! { biased; terminate, mailbox, on_run if idle_enabled }
 SelectPart(s, a) ==
   LET A == s.A[a] IN
-  IF A.term THEN EnterStop(SetA(s, a, [term |-> FALSE, killed |-> TRUE]), a, TRUE, FALSE)
-  ELSE IF Strong(s, a) = 0 THEN EnterStop(SetA(s, a, [killed |-> FALSE]), a, FALSE, FALSE)
+  IF A.term /\ (TermFirst \/ A.mbox = <<>>) THEN
+       LET k == KilledFromSignal \/ Strong(s, a) > 0 IN
+       EnterStop(SetA(s, a, [term |-> FALSE, killed |-> k]), a, k, FALSE)
+  ELSE IF Strong(s, a) = 0 /\ (TermFirst \/ A.mbox = <<>>) THEN EnterStop(SetA(s, a, [killed |-> FALSE]), a, FALSE, FALSE)
   ELSE IF A.mbox # <<>> THEN
        LET o  == Head(A.mbox)
            s1 == RelPermit(SetA(s, a, [mbox |-> Tail(A.mbox)]), a)
@@ -498,6 +516,7 @@ CmdEnabled(s, cmd) ==
                              /\ cmd.vk \in EraseKinds
                              /\ (cmd.by = "ref" => s.nextH <= MaxH)
                              /\ ~\E o \in OpIds : s.O[o].h = cmd.h /\ s.O[o].ph \in {"new","wait","granted","reply"}
+       [] cmd.c = "bg" -> s.O[cmd.op].det /\ s.O[cmd.op].ph = "new"      \* deviations only
        [] cmd.c = "quiesce" ->
             /\ \A c \in Clients : s.C[c] = 0 \/ ~Pollable(s, s.C[c])
             /\ \A a \in Actors : s.A[a].sp =>
@@ -566,6 +585,13 @@ DoRaw(s, cmd) ==
                   << [e |-> "Erase", h |-> cmd.h, h2 |-> 0, a |-> hh.a, k |-> hh.k, vk |-> cmd.vk] >>)
            ELSE R([s EXCEPT !.H[s.nextH] = [hh EXCEPT !.vk = cmd.vk], !.nextH = @ + 1],
                   << [e |-> "Erase", h |-> cmd.h, h2 |-> s.nextH, a |-> hh.a, k |-> hh.k, vk |-> cmd.vk] >>)
+    [] cmd.c = "bg" ->
+         \* first poll of a send that was detached from its caller (no observable event of its own)
+         LET o == cmd.op  a == s.O[o].a  A == s.A[a] IN
+         IF A.closed THEN R(SetO(s, o, [ph |-> "done"]), <<>>)
+         ELSE IF A.permits > 0
+           THEN R(SetO(SetA(s, a, [permits |-> A.permits - 1, mbox |-> Append(A.mbox, o)]), o, [ph |-> "bg"]), <<>>)
+           ELSE R(SetO(SetA(s, a, [waiters |-> Append(A.waiters, o)]), o, [ph |-> "wait"]), <<>>)
     [] cmd.c = "quiesce" ->
          R([s EXCEPT !.q = TRUE],
            << [e |-> "Quiescent",
@@ -605,6 +631,7 @@ NestCmds    == {[c |-> "nest", a |-> a, kind |-> k, h |-> h, d |-> d] :
 AdvanceCmds == {[c |-> "advance", d |-> d] : d \in 1..MaxTime}
 HandleCmds  == {[c |-> k, h |-> h] : k \in HandleOps \ {"erase"}, h \in HIds}
 EraseCmds   == {[c |-> "erase", h |-> h, vk |-> vk, by |-> by] : h \in HIds, vk \in EraseKinds, by \in {"val","ref"}}
+BgCmds      == {[c |-> "bg", op |-> o] : o \in OpIds}
 QuiesceCmd  == [c |-> "quiesce"]
 
 =============================================================================
